@@ -431,3 +431,14 @@ Proof. reflexivity. Qed.
 Example doc_good_example :
   doc_good [Control [84; 72] [[97; 32; 98]]; Text [Roman [46; 120; 10; 39; 121]; LineBreak; Bold [46]]] = true.
 Proof. reflexivity. Qed.
+
+(** Transparent reading of [escape_leading_cc_safe]: whatever follows a newline in the escaped text
+    does not begin with a control character. *)
+Lemma escape_leading_cc_after_newline s a b :
+  escape_leading_cc s = a ++ 10 :: b -> starts_with_cc b = false.
+Proof.
+  intros E. pose proof (escape_leading_cc_safe s) as H. rewrite E, no_ctl_app in H.
+  apply andb_true_iff in H. destruct H as [_ H]. cbn [no_ctl] in H. rewrite (N.eqb_refl 10) in H.
+  apply andb_true_iff in H. destruct H as [_ H]. rewrite no_ctl_true in H.
+  apply andb_true_iff in H. destruct H as [H _]. apply negb_true_iff in H. exact H.
+Qed.
